@@ -27,9 +27,9 @@ ASSUMPTIONS = ["that no code path reads scratch or heap bytes before writing the
                "the decision rules",
                "the two static string buffers (CMRelementString / CMRspReductionString with a NULL buffer) are only "
                "reachable through printing functions that recognition never calls with NULL outside debug output"]
-SOURCES = ["c15", "c13", "c01", "c02", "c08", "c17", "c05", "c06", "c14", "c09", "c12", "c03", "c10", "c20"]
+SOURCES = ["c15", "c13", "c01", "c02", "c08", "c17", "c05", "c06", "c14", "c09", "c12", "c03", "c10", "c16", "c20"]
 APIS = ["ctu_compl", "ctu_test", "tu", "tu_signed", "regular", "pivot", "sp", "balanced", "graphic", "network", "repmat",
-        "camion", "kcompose", "kdecomp", "tree", "textread", "rel", "textwrite"]
+        "camion", "kcompose", "kdecomp", "tree", "textread", "rel", "textwrite", "equimod"]
 CODES = {1: "malformed record", 70: "result depends on the calls made before on the same environment",
          71: "the second of two identical calls in a row answers differently",
          72: "result depends on the bytes found in fresh scratch memory (uninitialised read)",
